@@ -130,9 +130,31 @@ pub fn c27(out: &mut Out, ex: &mut Exec, seed: u64, thorough: bool) {
     let mut rng = Rng::new(seed);
     let mut stats = Stats { seen: HashSet::new() };
     let n = if thorough { 40_000 } else { 1_800 };
+    // hand-shaped strict-mode cases: a return that strict mode refuses (R7 uninitialised inside a trap routine, or a
+    // return address whose cell was never loaded) must not pop a frame; every step compared with the model
+    for (k, real) in [(0u32, 0u8), (1, 0), (2, 1), (3, 0)] {
+        let mut lines: Vec<String> = vec![format!("case strict-ret-{k}"), format!("sim new 1 {real} 1 0 0000"), "sim mmap fff0 ssp".into()];
+        match k {
+            // JSR x3010 from x3000, x3001 never loaded: RET is refused (StrictPCNextUninit)
+            0 => { lines.push("sim rawmem 3000 480f/ffff".into()); lines.push("sim rawmem 3010 c1c0/ffff".into()); }
+            // the same through JSRR R2 and JMP R7 after an instruction in the callee
+            1 => { lines.push("sim rawmem 3000 4080/ffff".into()); lines.push("sim rawmem 3010 1020/ffff c1c0/ffff".into()); lines.push("sim rawreg 2 3010 ffff".into()); }
+            // TRAP x30 to a routine at x1000 that executes RET while R7 is still uninitialised (StrictJmpAddrUninit)
+            2 | _ => { lines.push("sim rawmem 3000 f030/ffff 1020/ffff".into()); lines.push("sim rawmem 0030 1000/ffff".into()); lines.push("sim rawmem 1000 c1c0/ffff 8000/ffff".into()); if k == 3 { lines.push("sim rawreg 7 3001 00ff".into()); } }
+        }
+        lines.push("sim rawreg 0 0001 ffff".into()); lines.push("sim rawreg 6 fe00 ffff".into()); lines.push("sim hostwrite fff0 3000 ffff 1 0 0 0".into());
+        lines.push("sim setpc 3000".into()); lines.push("sim state".into());
+        for _ in 0..4 { lines.push("sim step".into()); }
+        let mut last_fn: Option<i64> = None; let mut all = vec![];
+        for l in &lines { let r = ex.line(l); out.op(l, &r); all.push(l.clone()); out.evaluations += 1;
+            if l == "sim step" { let f: i64 = field(&r, "fn").and_then(|x| x.parse().ok()).unwrap_or(0);
+                if !r.starts_with("ok") { if let Some(p) = last_fn { if f != p { out.fail(out.lines, format!("a refused strict-mode step changed the frame depth from {p} to {f}: {r}"), all.join("\n")); } } }
+                last_fn = Some(f); } }
+        out.hist.hit("strict_refused_return");
+    }
     for id in 0..n {
         let steps = 20 + rng.below(40) as usize;
-        let o = CaseOpts { prof: Prof::Frames, strict: false, real: rng.bool(), dbg: rng.chance(3, 4), ign: rng.chance(1, 2), steps };
+        let o = CaseOpts { prof: Prof::Frames, strict: id % 4 == 3, real: rng.bool(), dbg: rng.chance(3, 4), ign: rng.chance(1, 2), steps };
         let lines = setup(&mut rng, &o, id);
         run_case(out, ex, &lines, steps, &mut rng, &mut stats, |out, prev, cur, all| {
             let f0: i64 = field(prev, "fn").and_then(|x| x.parse().ok()).unwrap_or(0);
@@ -142,7 +164,7 @@ pub fn c27(out: &mut Out, ex: &mut Exec, seed: u64, thorough: bool) {
             if let Some(fr) = field(cur, "fr") { if fr != "-" { let n: i64 = fr.split(|c| c == '|' || c == '#').next().and_then(|x| x.parse().ok()).unwrap_or(-1); if n != f1 { out.fail(out.lines, format!("frame list has {n} entries but depth is {f1}"), all.join("\n")); } } }
         });
     }
-    out.rule = "call-heavy random programs (JSR/JSRR/RET/TRAP/RTI dense), unbalanced returns, interrupts, registered calling-convention and pass-by-register signatures at random addresses, debug frames mostly on; frame depth and the full frame list compared with the model after every step; implementation-side check: |depth delta| <= 1 and list length = depth".into();
+    out.rule = "call-heavy random programs (JSR/JSRR/RET/TRAP/RTI dense; every fourth case in strict mode, where a RET through an uninitialised R7 or to uninitialised memory is refused and must leave the frames alone), unbalanced returns, interrupts, registered calling-convention and pass-by-register signatures at random addresses, debug frames mostly on; frame depth and the full frame list compared with the model after every step; implementation-side check: |depth delta| <= 1 and list length = depth".into();
 }
 
 pub fn c28(out: &mut Out, ex: &mut Exec, seed: u64, thorough: bool) {
@@ -151,7 +173,7 @@ pub fn c28(out: &mut Out, ex: &mut Exec, seed: u64, thorough: bool) {
     let mut seen = HashSet::new();
     for id in 0..n {
         let steps = 10 + rng.below(25) as usize;
-        let o = CaseOpts { prof: Prof::Isa, strict: false, real: rng.bool(), dbg: false, ign: rng.chance(1, 3), steps };
+        let o = CaseOpts { prof: Prof::Isa, strict: id % 4 == 3, real: rng.bool(), dbg: false, ign: rng.chance(1, 3), steps };
         let lines = setup(&mut rng, &o, id);
         let mut all = vec![];
         for l in &lines { let r = ex.line(l); out.op(l, &r); all.push(l.clone()); }
@@ -177,5 +199,5 @@ pub fn c28(out: &mut Out, ex: &mut Exec, seed: u64, thorough: bool) {
         if seen.insert(crate::simx::fnv(all.iter().flat_map(|l| l.bytes().map(|b| b as u64)))) { out.nontrivial += 1; }
         if out.samples.len() < 2 { let mut s = Json::obj(); s.set("case", Json::Arr(all.iter().rev().take(12).rev().map(|x| Json::s(x.clone())).collect())); out.sample(s); }
     }
-    out.rule = "random non-strict programs; after every step / short run the observer is queried (peek = get_mem_accesses for all addresses, take = take_mem_accesses) and compared with the model's access sets; untracked host reads/writes (omnipotent context) and tracked host reads interleaved; implementation-side check: modified implies written".into();
+    out.rule = "random programs (three quarters non-strict, one quarter strict: the strict-mode peek at the next instruction is not an access); after every step / short run the observer is queried (peek = get_mem_accesses for all addresses, take = take_mem_accesses) and compared with the model's access sets; untracked host reads/writes (omnipotent context) and tracked host reads interleaved; implementation-side check: modified implies written".into();
 }
